@@ -4,6 +4,7 @@ package main
 import (
 	"encoding/json"
 	"fmt"
+	"math"
 	"reflect"
 	"strconv"
 	"strings"
@@ -394,12 +395,51 @@ func legacyText(r *ev.Run, c *ev.Case) {
 	r.Count("legacy texts decoded per last-token-wins", 1)
 }
 
+// unencodable: extension values that JSON has no representation for (infinities, NaN, functions, channels), at the top
+// of the extension map or deep inside it. The encoder may refuse such a set; what it accepts must be JSON that decodes
+// to the same version and attributes — a set that silently loses its extension map on the way has not survived.
+func unencodable(r *ev.Run) {
+	vals := []any{math.Inf(1), math.Inf(-1), math.NaN(), func() {}, make(chan int), complex(1, 2), map[string]any{"deep": []any{1.0, map[string]any{"x": math.Inf(1)}}}, []any{"a", math.NaN()}, map[int]string{1: "non-string keys"}}
+	for i, v := range vals {
+		c := r.Case("unencodable", i)
+		if c == nil {
+			continue
+		}
+		a := msgref.Attrs(c.Rand, false)
+		for msgref.RequiredMissing(a) {
+			a = msgref.Attrs(c.Rand, false)
+		}
+		if a.Exts == nil {
+			a.Exts = map[string]interface{}{}
+		}
+		a.Exts["odd"] = v
+		r.Eval(1)
+		var text string
+		var err error
+		if r.Guard(c, "Marshal", fmt.Sprintf("extension value of type %T", v), func() { text, err = a.Marshal() }) {
+			continue
+		}
+		if err != nil {
+			r.Count("attribute sets with an extension value JSON cannot represent: refused by the encoder", 1)
+			r.Nontrivial(fmt.Sprintf("unencodable:%T:%d", v, i))
+			continue
+		}
+		b, derr := message.Unmarshal(text)
+		if !json.Valid([]byte(text)) || derr != nil || b == nil || b.IfVer != a.IfVer || len(b.Exts) != len(a.Exts) {
+			r.Violation(c, "accepted-attribute-set-does-not-survive:unencodable-extension", fmt.Sprintf("extension value of type %T accepted by the encoder; text=%q; decoded: %s (err=%v)", v, text, js(b), derr), fmt.Sprintf("%T", v))
+			continue
+		}
+		r.Count("attribute sets with an odd extension value encoded and decoded with version and extension count intact", 1)
+	}
+}
+
 func main() {
 	ev.MainIsolated("C15", "exploration", 40*time.Minute, func(r *ev.Run) {
 		r.Rule("seeded attribute sets (all boolean combinations, algorithm numbers -1..20, touchless-sudo nil/empty/partial/full, nested extension maps of JSON-native values incl. strings that look like legacy tokens, UTF-8 strings) round-tripped through Marshal/Unmarshal in the JSON format (ifVer>=7) and the legacy format (ifVer<7, values free of whitespace and '@', also through MarshalLegacy/UnmarshalLegacy directly); JSON objects with missing required fields and embedded legacy tokens; JSON scalars; legacy texts assembled from tokens with repeats, empty values, '=' in values and stray separators. distinct_nontrivial = distinct wire texts that completed a round trip or reached the JSON-object decision")
 		r.Assume("ext values are JSON-native (numbers are float64)", "strings are valid UTF-8", "reference legacy tokenizer: split on space, trim, first '=', last key wins")
 		ring = ev.NewRing("message.Unmarshal", r.Seed, 41)
 		encRing = ev.NewRing("Attributes.Marshal", r.Seed+1, 43)
+		unencodable(r)
 		n := r.Pick(6000, 160000)
 		for i := 0; i < n; i++ {
 			if c := r.Case("json", i); c != nil {
